@@ -22,6 +22,7 @@ RULE = ("Code pairs: a base code (numeric nameplate + '-' + 0-4 'words' over an 
         "every side that was delivered a non-PAKE peer message closes WrongPasswordError by itself. derive_key "
         "before a key => NoKeyError. Non-trivial = not same, or same with differing spellings, or the Key machine "
         "took the PAKE-before-code path. Distinct = (features, trace).")
+RULE += (' Added later: the two applications may use different API styles (one delegated, one Deferred); purposes that are not in NFC form; long pass-phrase codes (50-140 characters) that differ only at the tail; graceful server closes through the WebSocket CLOSING window.')
 ASSUMPTIONS = ["SPAKE2/NaCl hardness is not tested, only the binding structure", "simulated mailbox link, real server",
                "'different bytes for different purposes' only asserted for n>=16 (collision 2^-128)"]
 
